@@ -18,4 +18,5 @@ done
 ./selftest/sensitivity.sh "${seeded[@]}" > $L 2>&1
 ./selftest/sensitivity.sh "${planted[@]}" >> $L 2>&1
 ./selftest/sensitivity.sh "${silent[@]}" >> $L 2>&1
-python3 selftest/record.py $L
+basename $L >> selftest/logs/ORDER
+python3 selftest/record.py
